@@ -27,9 +27,9 @@ type Invocation struct {
 // connection (by remote address string) to a key and a scripted probe handler.
 type ProbeProvider struct {
 	ring, ringOrig []byte
-	w     *world.World
-	mu    sync.Mutex
-	byKey map[string]*probeConn
+	w              *world.World
+	mu             sync.Mutex
+	byKey          map[string]*probeConn
 }
 
 type probeConn struct {
